@@ -113,7 +113,8 @@ def do_stream(ctx, name, cases, project, monitors=(), exhaustive=None, oracle=No
         if on_obs:
             on_obs(cid, lines, b.get(cid))
     if oracle:
-        oracle(ctx, name, a, b, cpath)
+        for orc in (oracle if isinstance(oracle, (list, tuple)) else [oracle]):
+            orc(ctx, name, a, b, cpath)
     if exhaustive:
         rep.exhaustive.append(exhaustive)
     # samples
@@ -196,6 +197,12 @@ def known_finding_witnesses(ctx):
     yield gen.hist_case("kf_identity_1e10", ["identity(1e10)\n"])
 
 
+SYNTAX_FAULTS = ["#", "1 +", ")", "x = ", "[1, 2; 3]", "5 as", "delete 3", "f(a+1) = 2", "1e²", "clear 5", "delete x 5", "x = 1 5", "1 5", "(1", "[1, 2", "|1", "f(1,", "5 m m",
+                 "delete", "= 3", "f(a) = ", "[]", "hh(v) = []", "[;]", "[1,]", "[,1]", "()", "x = ()", "f(,)", "||", "⌈⌉", "1 as as m", "as", "dot", "1 dot", "cross 1",
+                 "[1,2;;3,4]", "[1,2;\n3,4]", "[1;;2]", "[;1]", "[1;]", "[1,2; ;3,4]", "[1,2;;]", "f(1;;2)", "(1;;2)", "[1,,2]", "f(1,,2)", "x = [1;;2]", "hh(v) = [v;;v]", "[1\n,2]", "f(1\n)",
+                 "2 * []", "transpose([])", "x = []", "ee(q) = []\nee(1)", "ee(q) = [q;;q]\nee(1)", "|[]|", "[[]]", "[[], 1]", "f([])", "-[]", "[]!", "[] as m", "1 %", "1 *", "2 ^", "200*50%", "w = 3; w*10%"]
+
+
 def run_C01(ctx):
     rng, quick, rep = ctx["rng"], ctx["quick"], ctx["rep"]
     sp = spellings(ctx)
@@ -225,6 +232,18 @@ def run_C01(ctx):
              "[" + ";".join(",".join(["1"] * 5) for _ in range(5)) + "] * " + "[" + ";".join(",".join(["2"] * 5) for _ in range(5)) + "]",
              "inverse([2,1,0,0,0;1,2,1,0,0;0,1,2,1,0;0,0,1,2,1;0,0,0,1,2])", "determinant(identity(5) * 3)"]
     do_stream(ctx, "nesting", props.expr_cases("n", nest), P)
+    # every malformed snippet alone, in an assignment, in a function body that is then called, and as an argument
+    fl = []
+    for ft in SYNTAX_FAULTS:
+        fl += [ft, "zz = " + ft if "=" not in ft else ft, "ee(q) = %s\nee(1)\nee" % ft if "=" not in ft and "\n" not in ft else ft, "sqrt(%s)" % ft, ft + "\n" + ft]
+    do_stream(ctx, "malformed", props.expr_cases("m", fl, prelude=None), P)
+    big = []
+    for n in (2, 16, 17, 24, 25, 40, 255, 256, 257, 1000):
+        ones = ",".join(["1"] * n)
+        big += ["f(%s)" % ones, "[%s]" % ones, "[%s]" % ";".join(["1"] * n), "ff(%s) = 1\nff(%s)\nff" % (",".join("p%d" % i for i in range(n)), ones), "delete ff(%s)" % ",".join("p%d" % i for i in range(n)),
+                "|[%s]|" % ones, "[%s] dot [%s]" % (ones, ones), "ee(q) = [%s]\nee(1)\nee" % ";".join(["q"] * n), ";".join("v%d = %d" % (i, i) for i in range(n)) + ";v%d" % (n - 1),
+                "\n".join("sg(%d) = %d" % (i, i) for i in range(n)) + "\nsg(%d)\nsg(%d)\n" % (n - 1, n), "1e" + "0" * n + "5", "1e-" + "0" * n + "1 * 25"]
+    do_stream(ctx, "scale", props.expr_cases("b", big, prelude=None), P)
     chains = []
     for d in (1, 2, 8, 16, 24, 31):
         chains += ["sf" + "()" * d, "cc" + "(1)" * d, "sf" + "()" * d + "(1)", "sin" + "(0)" * d, "pick(sf)" + "()" * d, "(sf)" + "()" * d]
@@ -320,6 +339,15 @@ def run_C03(ctx):
                 toks[pos] = rng.choice(list("()[]|,;=+-*/^!"))
             t = "".join(toks)
         texts.append(t)
+    for rows in (2, 3, 4):
+        for lens in itertools.product((1, 2, 3), repeat=rows):
+            texts.append("[" + ";".join(",".join(["1"] * n) for n in lens) + "]")
+            texts.append("hh(v) = [" + ";".join(",".join(["v"] * n) for n in lens) + "]")
+    texts += [t for t in SYNTAX_FAULTS]
+    for n in (254, 255, 256, 257, 400, 1000):
+        ones = ",".join(["1"] * n)
+        texts += ["f(%s)" % ones, "[%s]" % ones, "[%s]" % ";".join(["1"] * n), "ff(%s) = 1" % ",".join("p%d" % i for i in range(n)), "delete ff(%s)" % ",".join("p%d" % i for i in range(n)),
+                  "x = 1\n[%s]\nx" % ones, "1 + " * n + "1", "(" * 30 + "1" + ")" * 30]
     # long texts: many statements of one form, then an ordinary one (acceptance must not depend on what came before)
     for form in ["1 as km", "x = 1", "f(a) = a", "delete x", "clear", "(1)", "[1,2;3,4]", "f(1, 2)", "-1!", "|x|", "2 ^ 3 ^ 2", "1 m + 2 m as cm"]:
         for n in (3, 65, 130):
@@ -380,7 +408,7 @@ def run_C05(ctx):
 
 def run_C06(ctx):
     ex = props.measurement_exprs(ctx["rng"], ctx["quick"])
-    run_values(ctx, "measurements", ex, oracle=oracles.oracle_eval)
+    run_values(ctx, "measurements", ex, oracle=[oracles.oracle_eval, oracles.oracle_reader_hist])
     run_interplay(ctx)
 
 
@@ -390,7 +418,8 @@ def run_interplay(ctx):
 
 def run_C07(ctx):
     ex = props.matrix_exprs(ctx["rng"], ctx["quick"])
-    run_values(ctx, "matrices", ex, oracle=oracles.oracle_linear_algebra)
+    # what the user gets of a matrix result is its text: it must denote the computed matrix (independent reader)
+    run_values(ctx, "matrices", ex, oracle=[oracles.oracle_linear_algebra, oracles.oracle_reader_hist])
     run_interplay(ctx)
 
 
@@ -406,6 +435,10 @@ INTERPLAY = ["dbl(3 m)", "tokm(1500 m) + 1 km", "dbl(tokm(1500 m))", "tokm(dbl(7
 
 def run_C08(ctx):
     ex = props.builtin_exprs(ctx["rng"], ctx["quick"])
+    tiny = ["1e-20", "1e-18", "1e-16", "1e-300", "4.9e-324", "(1e-20*i)", "(1+1e-17*i)", "(1e-17+i)", "(0-1e-20)", "1e-15", "3e-16", "(pi + 1e-20*i)"]
+    for bname in props.BUILTIN_NAMES:
+        if bname not in ("log", "gcd", "lcm", "identity", "transpose", "determinant", "inverse"):
+            ex += ["%s(%s)" % (bname, t) for t in tiny] + ["%s(%s) / %s" % (bname, t, t) for t in tiny[:4]] + ["im(%s(1 + 1e-17*i))" % bname, "re(%s(1e-17 + i))" % bname]
     run_values(ctx, "builtins", ex, with_info=True, oracle=oracles.oracle_builtins)
     # what a built-in is must not depend on the history of the session
     hist = []
@@ -473,7 +506,8 @@ def run_C10(ctx):
                           "clear 5", "clear x = 2", "delete x 5", "delete f(a) 5", "x = 1 5", "f(a) = a 5", "1 5", "x = 7 y = 8",
                           "(1", "[1, 2", "|1", "f(1,", "5 m m", "delete", "= 3", "f(a) = ", "x = = 1",
                           "[]", "hh(v) = []", "[;]", "[1,]", "[,1]", "()", "x = ()", "f(,)", "||", "⌈⌉", "x = 1 as", "1 as as m", "delete clear",
-                          "clear = 1", "as", "dot", "1 dot", "cross 1", "x == 1", "2 ** 3", "1 +- * 2", "f(a)(b) = 1", "(x) = 5", "f((n)) = n", "delete (x)"):
+                          "clear = 1", "as", "dot", "1 dot", "cross 1", "x == 1", "2 ** 3", "1 +- * 2", "f(a)(b) = 1", "(x) = 5", "f((n)) = n", "delete (x)",
+                          "[1,2;;3,4]", "[1,2;\n3,4]", "[1;;2]", "[;1]", "[1;]", "[1,2; ;3,4]", "f(1;;2)", "(1;;2)", "[1,,2]", "x = [1;;2]", "hh(v) = [v;;v]", "1 %", "200*50%", "2 ^"):
                 faulty = lines[:pos] + [fault] + lines[pos:]
                 if n % (11 if quick else 1) == 0 or (pos == 1 and n % 3 == 0):
                     cases.append(gen.hist_case("f%d" % n, ["x = 41\nf(a) = a\n", "\n".join(faulty) + "\n", "x\nf\n"]))
